@@ -1,12 +1,15 @@
 SPEC = {
     "trusted": [
-        "C12: hand-written model coq/C12/Model.v of quill/src/enigma_file.rs, the indentation iterator of quill/src/lines.rs as the Enigma reader uses it, and quill/src/enigma_dir.rs; it reuses the name predicates and the inner-class split of coq/C18/Model.v (tied by C18's own correspondence)",
-        "C12: the file system is a finite map from relative paths to contents; walkdir's sort_by_file_name is modelled as sorting paths component by component; Path::extension as 'text after the last dot of the last component, stem non-empty'",
+        "C12: hand-written model coq/C12/Model.v of quill/src/enigma_file.rs (EnigmaLine::new, read_into/parse_class, insert_comment, write_class, figure_out_files, write_one_tree_starting_at, write_all, write_one), of the indentation iterator of quill/src/lines.rs as the Enigma reader drives it, and of quill/src/enigma_dir.rs; it reuses the name predicates and the inner-class split of coq/C18/Model.v (tied by C18's own correspondence) — tied to the code by the correspondence run on write_all, read_into, write_one, enigma_dir::write and ::read",
+        "C12: the file system is a finite map from relative paths to contents; walkdir's sort_by_file_name is modelled as sorting paths component by component, Path::extension as 'text after the last dot of the last component, stem non-empty'; paths with characters that are special to the file system are not generated",
         "C12: BufRead::lines (LF ends a line, a CR directly before it is dropped, no final empty line), str::trim (Unicode White_Space table), usize::from_str and the decimal Display of usize are modelled by hand and validated by the correspondence run",
+        "C12: Rust's sort_by/sort_unstable_by_key/sort_unstable_keys return a sorted permutation (insertion sort in the model; Base/Sort.sorted_perm_unique makes the algorithm irrelevant where keys are distinct)",
     ],
     "assumptions": [
-        "mapping sets have two namespaces; names and descriptors are sequences of scalar values at the places the writer prints them (a name with an unpaired surrogate below file-name level makes the writer panic; recorded by the harness, outside the model)",
-        "comments are Rust Strings (scalar values only)",
+        "enigma_okb (decidable, coq/C12/TheoryRT.v; the harness' independently written predicate is compared with it on every generated set): two cells per names row; distinct class keys, field/method keys, parameter indices; names valid for their types (object class names, unqualified names, method names); every written token non-empty, free of Java white space, `#` and surrogates, not ending in Unicode white space; a written class target not starting with `ACC:`, a descriptor not starting with `ACC:` when a target name precedes it; comments free of TAB, VT, FF, CR; the target of a class written inside its parent is absent or <target-or-source of the parent>$<simple>; parameters have a target name and an index below 2^64; nesting depth at most 64 (MAX_CLASS_NESTING of the reader); file names of parent-free classes pairwise distinct and free of surrogates",
+        "dir_okb for the directory theorems: file names without `.`, not starting and not ending with `/`",
+        "what a round trip is allowed to change (enigma_norm): a method target `<init>` becomes absent; a parameter's source name becomes absent (the format has no place for it)",
+        "a name with an unpaired surrogate below file-name level makes the writer panic (write! on a failing Display); recorded by the harness as a note, outside the model",
     ],
     "stated_not_proved": [],
 }
